@@ -85,6 +85,18 @@ pub fn load_from_string(
     Ok((version, main_content_container, list_definitions))
 }
 
+fn expect_str<'t>(value: &'t serde_json::Value, what: &str) -> Result<&'t str, StoryError> {
+    value
+        .as_str()
+        .ok_or_else(|| StoryError::BadJson(format!("Expected a string for {}: {}", what, value)))
+}
+
+fn expect_i64(value: &serde_json::Value, what: &str) -> Result<i64, StoryError> {
+    value
+        .as_i64()
+        .ok_or_else(|| StoryError::BadJson(format!("Expected an integer for {}: {}", what, value)))
+}
+
 pub fn jtoken_to_runtime_object(
     token: &serde_json::Value,
     name: Option<String>,
@@ -166,12 +178,12 @@ pub fn jtoken_to_runtime_object(
             let prop_value = obj.get("^var");
 
             if let Some(v) = prop_value {
-                let variable_name = v.as_str().unwrap();
+                let variable_name = expect_str(v, "^var")?;
                 let mut contex_index = -1;
                 let prop_value = obj.get("ci");
 
                 if let Some(v) = prop_value {
-                    contex_index = v.as_i64().unwrap() as i32;
+                    contex_index = expect_i64(v, "ci")? as i32;
                 }
 
                 let var_ptr = Rc::new(Value::new_variable_pointer(variable_name, contex_index));
@@ -213,7 +225,10 @@ pub fn jtoken_to_runtime_object(
             }
 
             if is_divert {
-                let target = prop_value.unwrap().as_str().unwrap().to_string();
+                let target = match prop_value {
+                    Some(v) => expect_str(v, "divert target")?.to_string(),
+                    None => return Err(StoryError::BadJson("Divert without target".to_owned())),
+                };
 
                 let mut var_divert_name: Option<String> = None;
                 let mut target_path: Option<String> = None;
@@ -233,7 +248,7 @@ pub fn jtoken_to_runtime_object(
                 if external {
                     prop_value = obj.get("exArgs");
                     if let Some(prop_value) = prop_value {
-                        external_args = prop_value.as_i64().unwrap() as usize;
+                        external_args = expect_i64(prop_value, "exArgs")? as usize;
                     }
                 }
 
@@ -252,10 +267,12 @@ pub fn jtoken_to_runtime_object(
             let prop_value = obj.get("*");
             if let Some(cp) = prop_value {
                 let mut flags = 0;
-                let path_string_on_choice = cp.as_str().unwrap();
+                let path_string_on_choice = expect_str(cp, "*")?;
                 let prop_value = obj.get("flg");
                 if let Some(f) = prop_value {
-                    flags = f.as_u64().unwrap();
+                    flags = f.as_u64().ok_or_else(|| {
+                        StoryError::BadJson(format!("Expected an unsigned integer for flg: {}", f))
+                    })?;
                 }
 
                 return Ok(Rc::new(ChoicePoint::new(
@@ -267,13 +284,13 @@ pub fn jtoken_to_runtime_object(
             // // Variable reference
             let prop_value = obj.get("VAR?");
             if let Some(name) = prop_value {
-                return Ok(Rc::new(VariableReference::new(name.as_str().unwrap())));
+                return Ok(Rc::new(VariableReference::new(expect_str(name, "VAR?")?)));
             }
 
             let prop_value = obj.get("CNT?");
             if let Some(v) = prop_value {
                 return Ok(Rc::new(VariableReference::from_path_for_count(
-                    v.as_str().unwrap(),
+                    expect_str(v, "CNT?")?,
                 )));
             }
 
@@ -297,7 +314,10 @@ pub fn jtoken_to_runtime_object(
             }
 
             if is_var_ass {
-                let var_name = prop_value.unwrap().as_str().unwrap();
+                let var_name = match prop_value {
+                    Some(v) => expect_str(v, "variable assignment")?,
+                    None => return Err(StoryError::BadJson("Assignment without name".to_owned())),
+                };
                 let prop_value = obj.get("re");
                 let is_new_decl = prop_value.is_none();
 
@@ -312,25 +332,29 @@ pub fn jtoken_to_runtime_object(
             // Legacy Tag
             prop_value = obj.get("#");
             if let Some(prop_value) = prop_value {
-                return Ok(Rc::new(Tag::new(prop_value.as_str().unwrap())));
+                return Ok(Rc::new(Tag::new(expect_str(prop_value, "#")?)));
             }
 
             // List value
             prop_value = obj.get("list");
 
             if let Some(pv) = prop_value {
-                let list_content = pv.as_object().unwrap();
+                let list_content = pv.as_object().ok_or_else(|| {
+                    StoryError::BadJson(format!("Expected an object for list: {}", pv))
+                })?;
                 let mut raw_list = InkList::new();
 
                 prop_value = obj.get("origins");
 
                 if let Some(o) = prop_value {
-                    let names_as_objs = o.as_array().unwrap();
+                    let names_as_objs = o.as_array().ok_or_else(|| {
+                        StoryError::BadJson(format!("Expected an array for origins: {}", o))
+                    })?;
 
                     let names = names_as_objs
                         .iter()
-                        .map(|e| e.as_str().unwrap().to_string())
-                        .collect();
+                        .map(|e| expect_str(e, "origins").map(|s| s.to_string()))
+                        .collect::<Result<Vec<String>, StoryError>>()?;
 
                     raw_list.set_initial_origin_names(names);
                 }
@@ -423,12 +447,20 @@ pub fn jarray_to_runtime_obj_list(
 }
 
 fn jobject_to_choice(obj: &Map<String, serde_json::Value>) -> Result<Rc<dyn RTObject>, StoryError> {
-    let text = obj.get("text").unwrap().as_str().unwrap();
-    let index = obj.get("index").unwrap().as_u64().unwrap() as usize;
-    let source_path = obj.get("originalChoicePath").unwrap().as_str().unwrap();
-    let original_thread_index = obj.get("originalThreadIndex").unwrap().as_i64().unwrap() as usize;
-    let path_string_on_choice = obj.get("targetPath").unwrap().as_str().unwrap();
-    let choice_tags = jarray_to_tags(obj);
+    let field = |name: &str| {
+        obj.get(name)
+            .ok_or_else(|| StoryError::BadJson(format!("Choice without {}", name)))
+    };
+    let text = expect_str(field("text")?, "text")?;
+    let index = field("index")?
+        .as_u64()
+        .ok_or_else(|| StoryError::BadJson("Expected an unsigned integer for index".to_owned()))?
+        as usize;
+    let source_path = expect_str(field("originalChoicePath")?, "originalChoicePath")?;
+    let original_thread_index =
+        expect_i64(field("originalThreadIndex")?, "originalThreadIndex")? as usize;
+    let path_string_on_choice = expect_str(field("targetPath")?, "targetPath")?;
+    let choice_tags = jarray_to_tags(obj)?;
 
     Ok(Rc::new(Choice::new_from_json(
         path_string_on_choice,
@@ -440,18 +472,20 @@ fn jobject_to_choice(obj: &Map<String, serde_json::Value>) -> Result<Rc<dyn RTOb
     )))
 }
 
-fn jarray_to_tags(obj: &Map<String, serde_json::Value>) -> Vec<String> {
+fn jarray_to_tags(obj: &Map<String, serde_json::Value>) -> Result<Vec<String>, StoryError> {
     let mut tags: Vec<String> = Vec::new();
 
     let prop_value = obj.get("tags");
     if let Some(pv) = prop_value {
-        let tags_array = pv.as_array().unwrap();
+        let tags_array = pv
+            .as_array()
+            .ok_or_else(|| StoryError::BadJson(format!("Expected an array for tags: {}", pv)))?;
         for tag in tags_array {
-            tags.push(tag.as_str().unwrap().to_string());
+            tags.push(expect_str(tag, "tags")?.to_string());
         }
     }
 
-    tags
+    Ok(tags)
 }
 
 pub fn jtoken_to_list_definitions(
